@@ -57,7 +57,7 @@ def interleave(seqs, rng):
 class C09(Prop):
     id = "C09"
     thorough_rounds = 8   # thorough tier: this many independently seeded rounds of the random generators (duplicates dropped)
-    modules = ["H3.Props.C09"]
+    modules = ["H3.Props.C09", "H3.Lemmas.GenAgreeGoaway"]
     engines = ["drain"]
     design_ref = "DESIGN.md section 7, C09; section 8, D-09"
     level_text = ("Lean theorems over a model of ongoing_streams, the request-end channel, the Arc<RequestEnd> owners (resolver, "
